@@ -403,7 +403,20 @@ pub fn run(ctx: &Ctx) -> i32 {
         let mut rep = Report::new();
         for (i, o) in orders.iter().enumerate() {
             if sh.mine(i as u64) {
-                span_roundtrip(&lens, o, &mut rep);
+                let mut local = Report::new();
+                match util::catch(|| {
+                    let mut r = Report::new();
+                    span_roundtrip(&lens, o, &mut r);
+                    r
+                }) {
+                    Ok(r) => local.merge(r),
+                    Err(m) => local.violation(
+                        format!("C16/span-panic/{}", util::panic_site(&m)),
+                        format!("context lengths {:?}: {m}", o.iter().map(|&k| lens[k]).collect::<Vec<_>>()),
+                        json!({"type":"span","lens": o.iter().map(|&k| lens[k]).collect::<Vec<_>>()}),
+                    ),
+                }
+                rep.merge(local);
                 rep.distinct(o);
                 if i % 401 == 0 {
                     rep.sample(json!({"context_lengths": o.iter().map(|&k| lens[k]).collect::<Vec<_>>()}));
